@@ -559,6 +559,57 @@ func runC09(c *Ctx) {
 
 	c.rule("C09.V5", "each disconnect lets the rescan step back by exactly one block: handleBlockDisconnected takes the notification's ChainTip as its new position, so the event for a removed block must carry that block's own parent: "+disconnectPayloadDoc, func() { c.disconnectPayload() })
 
+	c.rule("C09.O4", "an update that Update() has handed over takes effect: while a rescan waits to catch up, waitForBlocks takes updates off the update channel itself; from the arm that received one, every path reaches the loop that applies the queued updates (updateFilter) before the next wait - an update that is only queued when the wait ends on the following notification is dropped although Update returned nil, and what it added is never matched", func() {
+		fn := c.fn("(*neutrino.rescanState).waitForBlocks")
+		upd := c.method("neutrino", "rescanOptions", "updateFilter")
+		updF := c.field("neutrino", "rescanOptions", "update")
+		calls := find(fn, callTo(upd))
+		construct := c.nm(fn) + " | a received update reaches the loop applying queued updates"
+		if len(calls) == 0 {
+			c.fail(construct, c.P.Pos(fn.Pos()), "waitForBlocks no longer applies updates (no updateFilter call)")
+			return
+		}
+		var targets []ssa.Instruction
+		for _, call := range calls {
+			if h := ir.LoopHeaderOf(call.Block()); h != nil {
+				targets = append(targets, h.Instrs[0])
+			} else {
+				targets = append(targets, call)
+			}
+		}
+		var starts []start
+		ir.Instrs(fn, func(in ssa.Instruction) {
+			sel, ok := in.(*ssa.Select)
+			if !ok {
+				return
+			}
+			for i, st := range sel.States {
+				if st.Dir != types.RecvOnly || !loadsField(updF)(st.Chan) {
+					continue
+				}
+				for _, r := range ir.Refs(sel) {
+					ex, isEx := r.(*ssa.Extract)
+					if !isEx || ex.Index != 0 {
+						continue
+					}
+					for _, ib := range ir.IntEqBranches(ex) {
+						if ib.K == int64(i) {
+							starts = append(starts, atEdge(c, ib.Edge(), "an update was received"))
+						}
+					}
+				}
+			}
+		})
+		c.mustFollowIter(fn, "an update was received", starts, func(in ssa.Instruction) bool {
+			for _, t := range targets {
+				if in == t {
+					return true
+				}
+			}
+			return false
+		}, "the loop applying the queued updates", nil, 1)
+	})
+
 	c.rule("C09.V4", "every block from the start time on is searched: the switch rescanState.scanning is only ever set from startTime.Before(T) with T the timestamp of the block that is about to be delivered: in handleBlockConnected the header of the notification itself (not rs.curHeader, which is still its parent there), in rescan's catch-up loop rs.curHeader after it has been moved to the fetched header in that iteration; whoever writes the switch is tabled", func() {
 		scanning := rsF("scanning")
 		before := c.method("time", "Time", "Before")
